@@ -18,6 +18,7 @@ the literal renaming that an earlier history induces.
 -/
 import NadaVerif.Lemmas.Mono
 import NadaVerif.Lemmas.Exact
+import NadaVerif.Props.C01
 
 namespace NadaVerif.C08
 open NadaVerif NadaVerif.Lemmas
@@ -67,6 +68,14 @@ theorem only_reachable_emitted (st : St) (outs : List OutDecl) (m : MirProg) (h 
     (∀ e ∈ m.operations, Reach st (outs.map (·.root)) e.1) ∧
     (∀ f ∈ m.functions, ∀ e ∈ f.ops, Reach st [f.returnOp] e.1) :=
   compile_no_dead_ops st outs m h
+
+/-- **Nothing the later program needs is missing**, whatever was traced, compiled or failed before it in the
+process: after any history `cs` continued by any program `more` (rejected commands and aborted function bodies
+included), compiling values the registers hold never looks up an id the store lacks. -/
+theorem later_program_nothing_missing (cs more : List Cmd) (outs : List OutDecl)
+    (ho : C01.OutsFromRegs (runCmds (runCmds {} cs).1 more).1.regs outs) :
+    compile (runCmds (runCmds {} cs).1 more).1.st outs ≠ .error .key :=
+  C01.history_compile_no_missing cs more outs ho
 
 /-- Non-vacuity: a store with an earlier program's records (ids 1–3) behind program B (ids 4–6). -/
 def opsB : List (Id × AstOp) :=
